@@ -16,11 +16,19 @@ TraceInit == /\ cfg = <<>> /\ srcT = <<>> /\ dstT = <<>> /\ last = <<>> /\ hist 
 TraceReset == IsReset /\ cfg' = CfgOf(Ev) /\ tree' = <<>> /\ UNCHANGED <<srcT, dstT, last, hist>>
 TraceSkip == SkipStep /\ UNCHANGED <<vars, tree>>
 
-Observed(T2) == /\ Ev.err = ""
-                /\ Admit(cfg, Ev, Ev.calls)
-                /\ (cfg.sink = "local" => TreeOk(cfg, Ev, tree, T2))
-TApply == /\ IsEvent("apply") /\ Strict
-          /\ LET T2 == FilesOf(Ev.tree) IN Observed(T2) /\ tree' = T2
+TApply == /\ IsEvent("apply") /\ Ev.err = ""
+          /\ LET T2 == FilesOf(Ev.tree)
+                 local == cfg.sink = "local"
+             IN /\ tree' = T2
+                /\ \/ /\ Strict
+                      /\ Admit(cfg, Ev, Ev.calls)
+                      /\ local => TreeOk(cfg, Ev, tree, T2)
+                   \/ /\ Deviate("C36-sync-rename-into-dropped")
+                      /\ RenameIntoDropped(cfg, Ev, Ev.calls)
+                      /\ local => T2 = tree
+                   \/ /\ Deviate("C36-localsink-rename-rewrites-old")
+                      /\ Admit(cfg, Ev, Ev.calls)
+                      /\ LocalRenameRewritesOld(cfg, Ev, tree, T2)
           /\ UNCHANGED vars
 TraceNext == TraceReset \/ TraceSkip \/ TApply
 TraceSpec == TraceInit /\ [][TraceNext]_tvars
